@@ -10,7 +10,7 @@ def main():
     results, paths = games.walk_traces(chk, events=700 if q else 20000, files=8 if q else 32)
     n_events, distinct = games.collect_walk(chk, results, paths)
     # --- direction B: enumerated families replayed into the generator
-    fams = ["ep", "castle", "pin", "dblchk", "promo", "promopin", "kingwalk", "evade", "givechk"]
+    fams = ["ep", "castle", "pin", "dblchk", "promo", "promopin", "kingwalk", "evade", "givechk", "noquiet"]
     if q:
         # quick: the line-through-the-king cases of ep / pin completely (all shards, thinning keeps them), the small
         # targeted families completely, the large cross products thinned
@@ -22,6 +22,8 @@ def main():
         o4, j4 = games.run_movegen_families(chk, ["promo"], nshards=8, density=16, shards=[chk.seed % 8, (chk.seed + 5) % 8])
         # every way a move gives check: the verdict after PLAYING each move (and after taking it back)
         o5, j5 = games.run_movegen_families(chk, ["givechk"], nshards=8, density=16)
+        o6, j6 = games.run_movegen_families(chk, ["noquiet"], nshards=8, density=4, shards=[chk.seed % 8, (chk.seed + 3) % 8])
+        o5, j5 = o5 + o6, j5 + j6
         outs, jobs = outs + o2 + o3 + o4 + o5, jobs + j2 + j3 + j4 + j5
     else:
         outs, jobs = games.run_movegen_families(chk, fams, nshards=16, density=1)
